@@ -112,6 +112,21 @@ def run(ctx, rep):
         'Partition': ('current_offset', 'should_increment_offset', 'unsaved_messages_count', 'segments'),
         'Segment': ('start_offset', 'current_offset', 'end_offset', 'is_closed', 'max_size_bytes', 'size_bytes', 'last_index_position', 'unsaved_messages')})
 
+    # ------------------------------------------------------------ R01.j a purge always rewinds the partition
+    rep.rule('R01.j', 'Partition::purge has no successful return that does not pass the reset of the offset state (current_offset = 0, should_increment_offset = false): "no stored messages" is not "never accepted a message" — a partition emptied by retention still stands at offset N, and a purge that is skipped for it lets the first message after the purge get N+1 instead of 0', floor=2, analysis='A2')
+    import forms as forms_j
+    pb_ = ctx.fn_body(sf.PURGE)
+    oks_ = strict_ok_exit_blocks(pb_) | {b_ for b_, k_, _ in pb_.return_sites() if k_ in ('value', 'tail')}
+    for fld in ('current_offset', 'should_increment_offset'):
+        sites_ = [bb_ for fn_, b2_, bb_, ln_, form_ in forms_j.field_assignments(ctx, sf.PART, fld) if fn_ == sf.PURGE and form_ == '0']
+        if not sites_:
+            rep.ob('R01.j', sf.PURGE, fld + ' reset', False, None, 'purge no longer resets %s' % fld)
+            continue
+        reach_ = pb_.reachable(0, avoid_blocks=set(sites_))
+        bad_ = sorted(oks_ & reach_)
+        rep.ob('R01.j', sf.PURGE, fld + ' reset on every successful return', not bad_, pb_.where(sites_[0]), None if not bad_ else
+               'purge can return successfully without resetting %s (a short cut in front of the reset)' % fld)
+
 
 def offset_assignment(ctx, rep, ra, rc):
     """shared with C12: one offset per message — writers and forms of the offset state, per-message offset = base + running count"""
